@@ -895,11 +895,11 @@ def run(ctx):
                   exhaustive=ctx.thorough())
     ctx.enumerate(ctx.p_date3, enum_date3(ctx), name="date(y, m, d) component sweep", exhaustive=True)
     ctx.enumerate(ctx.p_zone_grid, enum_zone_grid(ctx), name="curated zones x 24 instants 1980..2020: offset, timezone, weekday")
-    ctx.forall(ctx.p_dates, ctx.scale(25000, 500000))
-    ctx.forall(ctx.p_dts, ctx.scale(30000, 600000))
-    ctx.forall(ctx.p_props, ctx.scale(12000, 250000))
-    ctx.forall(ctx.p_ym, ctx.scale(25000, 500000))
-    ctx.forall(ctx.p_durs, ctx.scale(20000, 400000))
+    ctx.forall(ctx.p_dates, ctx.scale(25000, 3000000))
+    ctx.forall(ctx.p_dts, ctx.scale(30000, 3600000))
+    ctx.forall(ctx.p_props, ctx.scale(12000, 1500000))
+    ctx.forall(ctx.p_ym, ctx.scale(25000, 3000000))
+    ctx.forall(ctx.p_durs, ctx.scale(20000, 2400000))
 
 
 if __name__ == "__main__":
